@@ -82,8 +82,9 @@ def judge(case):
     elif r.status != 0:
         if r.out.strip():
             fail('output-with-failure-status', 'exit %s' % r.status, '%d bytes on stdout' % len(r.out))
-        elif not quiet and not err.strip():
-            fail('no-diagnostic', 'exit %s' % r.status, 'empty stderr without -q')
+        elif not quiet and not [ln for ln in err.split(b'\n') if ln.strip() and not re.match(rb'^do_source_file\S*: Parsing: ', ln)]:
+            # the "Parsing: FILE as language L" banner is printed for every file; it does not name a problem
+            fail('no-diagnostic', 'exit %s' % r.status, 'nothing but the Parsing banner on stderr without -q')
     ntok = len(re.findall(rb'\w+|[^\s\w]', case.src[:4000]))
     info = {'nontrivial': (r.status not in (0, None)) or ntok >= 10,
             'classes': ['lang:' + case.lang, 'origin:' + (case.origin or {}).get('kind', '?'), 'status:%s' % (r.status if r.signal is None else 'sig%d' % r.signal),
